@@ -614,6 +614,9 @@ func runBatch() {
 			if nb > 0 {
 				num, den = 1, 12
 			}
+		case "C07": // refusal surfaces of VerifyBatch: wrong pre-hash lengths (false entry), option errors
+			want = isErr || kinds["digestLen63"] || kinds["digestLen65"] || kinds["digestLen0"]
+			num, den = 1, 4
 		case "C03": // library-made signatures as batch members of every size / position, same-signer runs
 			want = !isErr && only("sameSigner") && c.Entropy == "random"
 			num, den = 1, 8
